@@ -882,6 +882,40 @@ MULTI += [
         self.file.write_all(event_buf)?;""", """        CountedWrite::write_counted(self, event_buf)?;"""),
    ("fn is_file_in_set(file_name: &str, file_prefix: &str, file_ext: &str) -> bool {",
     "trait CountedWrite {\n    fn write_counted(&mut self, buf: &[u8]) -> Result<(), io::Error>;\n}\n\nimpl CountedWrite for ActiveFile {\n    fn write_counted(&mut self, buf: &[u8]) -> Result<(), io::Error> {\n        self.file_size_bytes += buf.len();\n        self.file.write_all(buf)\n    }\n}\n\nfn is_file_in_set(file_name: &str, file_prefix: &str, file_ext: &str) -> bool {")]),
+ # ---- round 11: behaviour-preserving variants aimed at the rules added in that round ----
+ ("B.r11.eq_empty_fragment_len_zero", ["C16"], "core/src/template.rs", [
+   ("(PartKind::Text { value: ref a }, PartKind::Hole { .. }) if a.get().is_empty() => {\n                    ai += 1;\n",
+    "(PartKind::Text { value: ref a }, PartKind::Hole { .. }) if a.get().len() == 0 => {\n                    ai += 1;\n                    ati = 0;\n"),
+   ("(PartKind::Hole { .. }, PartKind::Text { value: ref b }) if b.get().is_empty() => {\n                    bi += 1;\n",
+    "(PartKind::Hole { .. }, PartKind::Text { value: ref b }) if b.get().len() == 0 => {\n                    bi += 1;\n                    bti = 0;\n")]),
+ ("B.r11.retry_not_empty", ["C06", "C08", "C07", "C12"], "batcher/src/lib.rs", [
+   ("if retryable.len() > 0 && self.retry.next() {", "if !retryable.is_empty() && self.retry.next() {")]),
+ ("B.r11.retry_hoisted_flag", ["C06", "C08", "C07", "C12"], "batcher/src/lib.rs", [
+   ("                                        if retryable.len() > 0 && self.retry.next() {",
+    "                                        let has_more = retryable.len() != 0;\n                                        if has_more && self.retry.next() {")]),
+ ("B.r11.id_display_write_macro", ["C15", "C18", "C04"], "src/span.rs", [
+   ("impl fmt::Display for TraceId {\n    fn fmt(&self, f: &mut fmt::Formatter) -> fmt::Result {\n        f.write_str(str::from_utf8(&self.to_hex()).unwrap())",
+    "impl fmt::Display for TraceId {\n    fn fmt(&self, f: &mut fmt::Formatter) -> fmt::Result {\n        write!(f, \"{}\", str::from_utf8(&self.to_hex()).unwrap())")]),
+ ("B.r11.otlp_worker_next_loop", ["C08", "C12", "C07"], "emitter/otlp/src/client.rs", [
+   ("            let _ = processors.collect::<Vec<()>>().await;", "            let mut processors = processors;\n            while processors.next().await.is_some() {}")]),
+ ("B.r11.into_points_early_empty", ["C13", "C14"], "emitter/otlp/src/data/metrics.rs", [
+   ("        match self.points.len() as u64 {\n            0 => None,", "        if self.points.is_empty() {\n            return None;\n        }\n\n        match self.points.len() as u64 {\n            0 => None,")]),
+ ("B.r11.exclude_props_branches_swapped", ["C18", "C02"], "traceparent/src/lib.rs", [
+   ("        if !self.check {\n            return self.inner.for_each(for_each);\n        }\n\n        self.inner.for_each(|key, value| match key.get() {\n            // Properties that come from the traceparent context\n            KEY_TRACE_ID | KEY_SPAN_ID | KEY_SPAN_PARENT => ControlFlow::Continue(()),\n            // Properties to pass through to the underlying context\n            _ => for_each(key, value),\n        })",
+    "        if self.check {\n            return self.inner.for_each(|key, value| match key.get() {\n                // Properties that come from the traceparent context\n                KEY_TRACE_ID | KEY_SPAN_ID | KEY_SPAN_PARENT => ControlFlow::Continue(()),\n                // Properties to pass through to the underlying context\n                _ => for_each(key, value),\n            });\n        }\n\n        self.inner.for_each(for_each)")]),
+ ("B.r11.level_walk_root_alias", ["C17"], "src/level.rs", [
+   ("            let mut node = &self.root;\n            let mut filter = self.root.min_level.as_ref();", "            let root = &self.root;\n            let mut node = root;\n            let mut filter = root.min_level.as_ref();")]),
+ ("B.r11.member_match_form", ["C11", "C10"], "emitter/file/src/lib.rs", [
+   ("    let Some(parts) = file_name\n        .strip_prefix(file_prefix)\n        .and_then(|rest| rest.strip_suffix(file_ext))\n        .and_then(|rest| rest.strip_prefix('.'))\n        .and_then(|rest| rest.strip_suffix('.'))\n    else {\n        return false;\n    };",
+    "    let parts = match file_name\n        .strip_prefix(file_prefix)\n        .and_then(|rest| rest.strip_suffix(file_ext))\n        .and_then(|rest| rest.strip_prefix('.'))\n        .and_then(|rest| rest.strip_suffix('.'))\n    {\n        Some(parts) => parts,\n        None => return false,\n    };")]),
+ ("B.r11.hole_fmt_named_result", ["C16"], "core/src/template.rs", [
+   ("    fn write_hole_fmt(&mut self, _: &str, value: Value, formatter: Formatter) -> fmt::Result {\n        formatter.fmt(value, self)",
+    "    fn write_hole_fmt(&mut self, _: &str, value: Value, formatter: Formatter) -> fmt::Result {\n        let r = formatter.fmt(value, self);\n        r")]),
+ ("B.r11.trigger_remaining_saturating", ["C08", "C07"], "batcher/src/sync.rs", [
+   ("                    timeout = match timeout.checked_sub(now.elapsed()) {\n                        Some(timeout) => timeout,\n                        // We didn't time out, but got close enough that we should now anyways\n                        None => {\n                            return *flushed_slot;\n                        }\n                    };",
+    "                    timeout = timeout.saturating_sub(now.elapsed());\n                    if timeout.is_zero() {\n                        return *flushed_slot;\n                    }")]),
+ ("B.r11.sum_points_add_assign", ["C13", "C14"], "emitter/otlp/src/data/metrics.rs", [
+   ("                NumberDataPointValue::AsDouble(AsDouble(current + value))", "                NumberDataPointValue::AsDouble(AsDouble({\n                    let mut total = current;\n                    total += value;\n                    total\n                }))")]),
 ]
 
 # Behaviour-preserving edits the checks are KNOWN to alarm on (documented limitation, DESIGN.md section 8.1): the step is moved into a
